@@ -545,6 +545,10 @@ func (x *Unit) lvalue(st *State, e ast.Expr) *LV {
 		case *types.Map:
 			m := x.eval(st, e.X)
 			k := x.convert(st, x.eval(st, e.Index), tt.Key())
+			if x.inSpec == 0 {
+				// assignment to an entry of a nil map panics
+				x.oblige(st, "nilmap", x.srcOf(e), Not(x.mapIsNil(st, m)), e)
+			}
 			return &LV{kind: lvMap, parent: x.mapLV(m), idx: k.T, typ: tt.Elem()}
 		case *types.Slice:
 			plv := x.lvalue(st, e.X)
